@@ -98,6 +98,19 @@ def jobs(tier, seed):
             subd = [c for c in deck if c[0] in '2AK' and c[1] in 'cs']
             out.append({'family': 'stud-door-all-in-designee', 'kind': 'door', 'razz': razz, 'n': len(stacks),
                         'stacks': stacks, 'cases': list(permutations(subd, len(stacks)))})
+        # custom stud-like game whose opening street shows two cards per player: the single lowest / highest card showing
+        # anywhere on the table decides
+        for n, ranks, suits in [(2, 'A23K', 'cs'), (3, 'A2K', 'cs')] + ([(2, 'A23QK', 'cdhs'), (3, 'A23K', 'cs')] if th else []):
+            subd = [c for c in deck if c[0] in ranks and c[1] in suits]
+            cases = list(permutations(subd, 2 * n))
+            for k in range(0, len(cases), 1500):
+                out.append({'family': f'two-door-cards-{n}p', 'kind': 'door', 'razz': razz, 'n': n, 'ndoor': 2,
+                            'cases': cases[k:k + 1500]})
+        # later streets with the best board all-in since third street
+        for stacks in [(2, 9, 9), (9, 2, 9), (9, 9, 2)]:
+            subd = [c for c in deck if c[0] in '2KA' and c[1] in 'cs']
+            out.append({'family': 'stud-exposed-all-in-designee', 'kind': 'exposed', 'razz': razz, 'n': 3, 'nup': 2,
+                        'stacks': stacks, 'cases': list(permutations(subd, 6))})
         # later streets: k up-cards per player
         for nup, ranks, n in [(2, '2KA', 2), (2, '2A', 3), (3, '2A', 2), (4, '2A', 2)] + \
                 ([(2, '2QKA', 2), (3, '2KA', 2), (2, '2KA', 3)] if th else []):
@@ -147,6 +160,11 @@ def run_stud(job):
     stacks = job.get('stacks', (50,) * n)
     autos = ['ANTE_POSTING', 'BET_COLLECTION', 'CARD_BURNING']
     cfg = C.stud(stacks, game=game, autos=autos)
+    nd = job.get('ndoor', 1)
+    if nd > 1:
+        cfg = C.custom(stacks, [(False, (False,) + (True,) * nd, 0, False, 'HIGH_CARD' if razz else 'LOW_CARD', 2, None),
+                                (True, (True,), 0, False, 'LOW_HAND' if razz else 'HIGH_HAND', 2, None)],
+                       deck='STANDARD', hand_types=('StandardHighHand',), structure='FL', antes=1, bring_in=1, autos=autos)
     viol = []
     counters = Counter()
     states = trans = 0
@@ -155,20 +173,25 @@ def run_stud(job):
         st = C.build(cfg)
         states += 1
         if job['kind'] == 'door':
+            doors = [list(case[i * nd:(i + 1) * nd]) for i in range(n)]
             for i in range(n):
-                st.deal_hole('????' + case[i], i)
+                st.deal_hole(('????' if nd == 1 else '??') + ''.join(doors[i]), i)
                 trans += 1
             live = [True] * n
-            des = O.door_opener(list(case), razz)
+            des = O.door_opener(doors, razz)
             exp = O.first_able(n, des, live, st.stacks, st.bets)
             counters['door_cases'] += 1
             if st.stacks[des] == 0:
                 counters['designee_all_in'] += 1
+            if nd > 1:
+                counters['two_door_cases'] += 1
+                if any('A' in (d[0][0], d[1][0]) for d in doors):
+                    counters['two_door_cases_with_an_ace_showing'] += 1
             got = st.actor_index
             desc = f'door cards {case} stacks {st.stacks}'
             if got != exp:
                 viol.append({'oracle': 'stud-door-opener', 'detail': f'{desc}: engine actor {got}, reference {exp} (designee {des})',
-                             'cfg': cfg, 'events': [['deal_hole', '????' + case[i], i] for i in range(n)],
+                             'cfg': cfg, 'events': [['deal_hole', ('????' if nd == 1 else '??') + ''.join(doors[i]), i] for i in range(n)],
                              'sig': ('C13', 'stud-door-opener', 'razz' if razz else 'stud')})
             elif got is not None:
                 rec = st.post_bring_in()
@@ -210,6 +233,8 @@ def run_stud(job):
                 continue
             counters['exposed_cases'] += 1
             des = O.exposed_opener(ups, razz)
+            if st.stacks[des] == 0 and sum(1 for x in st.stacks if x) >= 2:
+                counters['exposed_designee_all_in_with_betting_left'] += 1
             exp = O.first_able(n, des, [True] * n, st.stacks, st.bets)
             strengths = [O.exposed_strength(u, razz) for u in ups]
             if len({str(s) for s in strengths}) < n:
@@ -236,7 +261,8 @@ def run_job(job):
 
 def sanity(agg, counters, fam, tier):
     return [f'{k} == 0' for k in ('door_cases', 'exposed_cases', 'exposed_ties', 'designee_all_in', 'designee_could_not_act',
-                                  'round_openings_compared') if not counters.get(k)]
+                                  'round_openings_compared', 'two_door_cases_with_an_ace_showing',
+                                  'exposed_designee_all_in_with_betting_left') if not counters.get(k)]
 
 
 def bounds(tier):
